@@ -51,6 +51,8 @@ func main() {
 		os.Exit(cmdReplay(os.Args[2:]))
 	case "selftest":
 		os.Exit(cmdSelftest(os.Args[2:]))
+	case "list":
+		cmdList()
 	default:
 		fmt.Fprintln(os.Stderr, "unknown command", os.Args[1])
 		os.Exit(2)
@@ -244,4 +246,38 @@ func cmdReplay(args []string) int {
 		fmt.Println("replay: no replay harness for", id, "(the failed obligation and the solver output are in the replay file)")
 	}
 	return rc
+}
+
+// cmdList prints every function of the module that has a body (closures included) with the status of its contract:
+// contract / inline / trusted / none.  "none" functions are verified only where a contracted caller inlines them.
+func cmdList() {
+	p, err := vc.Load(repoDir(), filepath.Join(verifRoot(), "stubs"), nil)
+	if err != nil {
+		fmt.Fprintln(os.Stderr, "load:", err)
+		os.Exit(2)
+	}
+	var names []string
+	for name, f := range p.Funcs {
+		if !strings.Contains(name, vc.ModulePath) || len(f.Blocks) == 0 || f.Synthetic != "" {
+			continue
+		}
+		names = append(names, name)
+	}
+	sort.Strings(names)
+	for _, name := range names {
+		f := p.Funcs[name]
+		st := "none"
+		if ct := p.ContractFor(f); ct != nil {
+			switch {
+			case ct.Trusted:
+				st = "trusted"
+			case ct.Inline:
+				st = "inline"
+			default:
+				st = "contract"
+			}
+		}
+		pos := p.Fset.Position(f.Pos())
+		fmt.Printf("%-9s %s  (%s:%d)\n", st, strings.ReplaceAll(name, vc.ModulePath+"/", ""), filepath.Base(pos.Filename), pos.Line)
+	}
 }
